@@ -307,6 +307,13 @@ def run(ctx):
         for (i, c, a, b) in mism[:3]:
             ctx.violation('L1 list model and the real list surgery disagree', {'case': c, 'impl': a, 'model': b,
                           'cmd': 'echo "%s" | build/C09/harness' % c}, found_input=True)
+        trc = ['tr' + c[4:] for c in hist if c.split()[1] != '1']
+        mism, _ = ctx.correspond('pool-state-trace', trc, [harness], [ctx.model_exe])
+        ctx.tie_obligations.append({'name': 'concrete model PoolConc (buffer list, per-buffer free chain order, cache order, counts, returned block) == private state of the real pool after EVERY op of %d histories' % len(trc), 'ok': not mism})
+        for (i, c, a, b) in mism[:2]:
+            k = next((j for j, (x, y) in enumerate(zip(a.split(), b.split())) if x != y), -1)
+            ctx.violation('concrete pool model and the real pool state disagree (first differing op #%d)' % k,
+                          {'case': c[:3000], 'impl': a[:1500], 'model': b[:1500], 'first_differing_op': k}, found_input=True)
     # ---- the oracle on the real code (always; bigger generator when a stage broke = search stage)
     if any(not s['ok'] for s in ctx.stages.values()):
         ctx.log('a stage broke: searching the implementation for a failing input with the thorough generator')
@@ -336,6 +343,7 @@ def run(ctx):
         ctx.add_sample(c[:400])
     ctx.coverage['input_distribution'] = {k: sum(1 for c in (tv + fab + hist) if c.split()[0] == k)
                                           for k in ('ceil', 'cbs', 'chk', 'ar', 'gb', 'gi', 'pos', 'nb1', 'nbuf', 'fabmg', 'fabmv', 'fabdel', 'hist')}
+    ctx.coverage['input_distribution']['tr'] = sum(1 for c in hist if c.split()[1] != '1')
     return ctx.finish(rule=RULE)
 
 
